@@ -7,6 +7,7 @@ package main
 
 import (
 	"fmt"
+	"os"
 	"reflect"
 	"strconv"
 	"strings"
@@ -185,6 +186,39 @@ func (t c11T32) Process() (int, error) {
 }
 func (t c11T42) Process() (int, error) {
 	return c11Process(t.id, t.salt, t.rec, []c11In{t.A, t.B, t.C, t.D}, [][]c11In{t.Xs, t.Ys})
+}
+
+// c11K: a processor that SKIPS an input.  It reads A; only when that value is > 0 does it read B.
+// Used only by the c11.skip.* lines (the known finding "a processor that conditionally skips a
+// struct-node input re-executes on idle reads"); never part of the ordinary histories.
+type c11K struct {
+	A, B     c11In
+	id, salt int
+	rec      *c11Rec
+}
+
+func c11MixK(salt, x, y int, read bool) int {
+	h := int64(salt)
+	h = (h*31 + 11 + int64(x)) % c11M
+	if read {
+		h = (h*31 + 11 + int64(y)) % c11M
+	} else {
+		h = (h*31 + 3) % c11M
+	}
+	return int(h)
+}
+
+func (t c11K) Process() (int, error) {
+	x := t.A.Value()
+	var h int
+	if x > 0 {
+		y := t.B.Value()
+		h = c11MixK(t.salt, x, y, true)
+	} else {
+		h = c11MixK(t.salt, x, 0, false)
+	}
+	t.rec.log = append(t.rec.log, t.id)
+	return h, nil
 }
 
 // ---- uniform view of a node of the real graph ------------------------------------------------
@@ -473,6 +507,11 @@ type c11Case struct {
 	rec   *c11Rec
 	nd    []*c11Node
 	fresh int // next fresh parameter value
+	// fixed: no PRNG draws at all (the witness histories); handle 0 of every node is used
+	fixed bool
+	// results of the last `rd` (for notes and the harness's own sanity assertions)
+	lastV1, lastV2 int
+	lastX, lastY   []int
 }
 
 // number of dependency paths below every node, summed: Outdated()/State() of the real code walks
@@ -589,11 +628,17 @@ func c11Wiring(sb *strings.Builder, sc []int, ar [][]int) {
 
 func (cs *c11Case) outOf(src int) c11In {
 	n := cs.nd[src]
+	if cs.fixed {
+		return n.outs[0]
+	}
 	return n.outs[cs.c.Rng.Intn(len(n.outs))]
 }
 
 func (cs *c11Case) refOf(src int) nodes.NodeOutputReference {
 	n := cs.nd[src]
+	if cs.fixed {
+		return n.refs[0]
+	}
 	return n.refs[cs.c.Rng.Intn(len(n.refs))]
 }
 
@@ -692,7 +737,7 @@ func (cs *c11Case) exec(o c11Op, ans *strings.Builder) (bool, int) {
 			n.node.SetInput(c11ArrName[o.b]+"."+strconv.Itoa(o.d), nodes.Output{})
 		case "rd":
 			h := 0
-			if n.kind == 'S' {
+			if (n.kind == 'S' || n.kind == 'K') && !cs.fixed {
 				h = cs.c.Rng.Intn(len(n.outs))
 			}
 			cs.rec.log = nil
@@ -723,6 +768,7 @@ func (cs *c11Case) exec(o c11Op, ans *strings.Builder) (bool, int) {
 	if o.kind == "rd" && ok {
 		fmt.Fprintf(ans, " r %d %d", v1, v2)
 	}
+	cs.lastV1, cs.lastV2, cs.lastX, cs.lastY = v1, v2, x, y
 	cs.observe(ans)
 	c11Ids(ans, "x", x)
 	c11Ids(ans, "y", y)
@@ -1158,7 +1204,348 @@ func (cs *c11Case) badOp(params, strs []int) c11Op {
 	}
 }
 
+// ---- skipping processor: witness histories of the known finding, and random histories -----------
+
+// description of a node of a skip case: kind 'P'/'Q' (v = initial value), 'S' (v = salt, scalar
+// ports sc, no arrays), 'K' (v = salt, sc = [a, b]); every dependency has a smaller id
+type c11SkipNode struct {
+	kind byte
+	v    int
+	sc   []int
+}
+
+// c11SkipBuild creates the real objects (all wiring given in the Data literals) and the header
+// `N <node>*N` of the request
+func c11SkipBuild(c *Ctx, fixed bool, desc []c11SkipNode) (*c11Case, string) {
+	cs := &c11Case{c: c, rec: &c11Rec{}, fresh: 100, fixed: fixed}
+	var req strings.Builder
+	fmt.Fprintf(&req, "%d", len(desc))
+	for i, d := range desc {
+		switch d.kind {
+		case 'P':
+			vn := nodes.Value(d.v)
+			cs.nd = append(cs.nd, &c11Node{kind: 'P', node: vn, vn: vn, pval: d.v, outs: []c11In{vn, vn.Out()},
+				refs: []nodes.NodeOutputReference{vn, vn.Out(), vn.Outputs()[0].NodeOutput}, cached: func() int { return vn.Value() }})
+			fmt.Fprintf(&req, " P %d", d.v)
+		case 'Q':
+			pv := &parameter.Value[int]{Name: "p" + strconv.Itoa(i), DefaultValue: d.v}
+			cs.nd = append(cs.nd, &c11Node{kind: 'Q', node: pv, pv: pv, pval: d.v, outs: []c11In{pv, pv.Out()},
+				refs: []nodes.NodeOutputReference{pv, pv.Out(), pv.Outputs()[0].NodeOutput}, cached: func() int { return pv.Value() }})
+			fmt.Fprintf(&req, " Q %d", d.v)
+		case 'S', 'K':
+			lit := make([]c11In, len(d.sc))
+			for k, s := range d.sc {
+				if s >= i {
+					panic("c11 skip: dependency with a larger id")
+				}
+				if s >= 0 {
+					lit[k] = cs.outOf(s)
+				}
+			}
+			var n *c11Node
+			if d.kind == 'K' {
+				if len(d.sc) != 2 || d.sc[0] < 0 || d.sc[1] < 0 || cs.nd[d.sc[0]].kind == 'S' || cs.nd[d.sc[0]].kind == 'K' || cs.nd[d.sc[1]].kind != 'S' {
+					panic("c11 skip: K needs A = parameter, B = struct node")
+				}
+				n = c11Wrap(c11K{id: i, salt: d.v, rec: cs.rec, A: lit[0], B: lit[1]}, !fixed && c.Rng.Intn(2) == 0)
+				n.kind = 'K'
+			} else {
+				n = c11NewStruct(i, d.v, cs.rec, lit, nil, !fixed && c.Rng.Intn(2) == 0)
+			}
+			n.salt, n.sc, n.ar = d.v, append([]int{}, d.sc...), [][]int{}
+			cs.nd = append(cs.nd, n)
+			fmt.Fprintf(&req, " %c %d ", d.kind, d.v)
+			c11Wiring(&req, n.sc, n.ar)
+		default:
+			panic("c11 skip: node kind")
+		}
+	}
+	return cs, req.String()
+}
+
+// skipSpec: the from-scratch value of node i under the harness's own bookkeeping (independent of
+// the Lean model): sanity assertion of freshness on the Go side
+func (cs *c11Case) skipSpec(i int) int {
+	n := cs.nd[i]
+	switch n.kind {
+	case 'P', 'Q':
+		return n.pval
+	case 'K':
+		x := cs.skipSpec(n.sc[0])
+		if x > 0 {
+			return c11MixK(n.salt, x, cs.skipSpec(n.sc[1]), true)
+		}
+		return c11MixK(n.salt, x, 0, false)
+	}
+	h := int64(n.salt)
+	for _, s := range n.sc {
+		if s < 0 {
+			h = (h*31 + 7) % c11M
+		} else {
+			h = (h*31 + 11 + int64(cs.skipSpec(s))) % c11M
+		}
+	}
+	for _, a := range n.ar {
+		h = (h*37 + 5 + int64(len(a))) % c11M
+		for _, s := range a {
+			h = (h*31 + 13 + int64(cs.skipSpec(s))) % c11M
+		}
+	}
+	return int(h)
+}
+
+// skipExec: one op, with the notes of the skip family and the Go-side freshness assertion
+func (cs *c11Case) skipExec(o c11Op, ans *strings.Builder, ops *[]string) {
+	c := cs.c
+	ok, execs := cs.exec(o, ans)
+	*ops = append(*ops, o.String())
+	c.Note("skip.op." + o.kind)
+	if !ok {
+		c.Note("skip.op.PANIC")
+		return
+	}
+	if o.kind != "rd" {
+		return
+	}
+	if want := cs.skipSpec(o.a); cs.lastV1 != want || cs.lastV2 != want {
+		c.Note("skip.FRESHNESS-FAILED")
+		fmt.Fprintf(os.Stderr, "c11 skip: read of node %d returned %d %d, from-scratch value %d; ops so far: %s\n",
+			o.a, cs.lastV1, cs.lastV2, want, strings.Join(*ops, " "))
+	}
+	n := cs.nd[o.a]
+	has := func(l []int, j int) bool {
+		for _, e := range l {
+			if e == j {
+				return true
+			}
+		}
+		return false
+	}
+	switch n.kind {
+	case 'K':
+		x := cs.nd[n.sc[0]].pval
+		yProcessed := cs.nd[n.sc[1]].node.State() == nodes.Processed
+		tag := "skip.rd-K.x-pos"
+		if x <= 0 {
+			tag = "skip.rd-K.x-zero"
+		}
+		switch {
+		case execs == 0 && len(cs.lastY) == 0:
+			c.Note(tag + ".executed-nothing")
+		case len(cs.lastY) > 0:
+			c.Note(tag + ".second-read-executed-K") // the known finding
+		default:
+			c.Note(tag + ".first-read-executed-only")
+		}
+		if has(cs.lastX, n.sc[1]) {
+			c.Note(tag + ".executed-Y")
+		}
+		if x <= 0 {
+			if yProcessed {
+				c.Note("skip.rd-K.x-zero.Y-processed")
+			} else {
+				c.Note("skip.rd-K.x-zero.Y-stale")
+			}
+		}
+	case 'S':
+		// a node downstream of a K node?
+		down := false
+		for _, s := range n.sc {
+			down = down || (s >= 0 && cs.nd[s].kind == 'K')
+		}
+		switch {
+		case down && len(cs.lastY) > 0:
+			c.Note("skip.rd-downstream-of-K.second-read-executed")
+		case down:
+			c.Note("skip.rd-downstream-of-K.second-read-quiet")
+		default:
+			c.Note("skip.rd-S")
+		}
+	default:
+		c.Note("skip.rd-parameter")
+	}
+}
+
+func c11SkipEmit(c *Ctx, witness bool, header string, ops []string, ans *strings.Builder) {
+	q := header + " " + strconv.Itoa(len(ops))
+	if len(ops) > 0 {
+		q += " " + strings.Join(ops, " ")
+	}
+	a := strings.TrimPrefix(ans.String(), " ")
+	c.Emit("c11.skip.hist", q, a)
+	if witness {
+		// the driver answers false here: expected, it is the known finding
+		c.Emit("c11.holds.no_spurious_skipping_processor_witness", q+" @ "+a, "true")
+	}
+	c.Emit("c11.holds.fresh", q+" @ "+a, "true")
+	c.Emit("c11.holds.version", q+" @ "+a, "true")
+}
+
+// the three fixed witness histories (no PRNG draw)
+func c11SkipWitnesses(c *Ctx) {
+	rd := func(i int) c11Op { return c11Op{kind: "rd", a: i} }
+	sp := func(p, v int) c11Op { return c11Op{kind: "sp", a: p, b: v} }
+	small := func(x int) []c11SkipNode {
+		return []c11SkipNode{{'P', x, nil}, {'P', 7, nil}, {'S', 101, []int{1}}, {'K', 202, []int{0, 2}}}
+	}
+	ws := []struct {
+		name string
+		desc []c11SkipNode
+		ops  []c11Op
+	}{
+		{"W1", small(0), []c11Op{rd(3), rd(3), rd(3), rd(3), rd(3)}},
+		{"W2", small(5), []c11Op{rd(3), rd(3), sp(0, 0), rd(3), rd(3), sp(1, 9), rd(3), sp(0, 4), rd(3), rd(3), rd(2), sp(0, 0), rd(3), rd(3)}},
+		{"W3", []c11SkipNode{{'P', 0, nil}, {'P', 7, nil}, {'S', 101, []int{1}}, {'S', 303, []int{2}}, {'K', 202, []int{0, 3}}, {'S', 404, []int{4}}},
+			[]c11Op{rd(5), rd(5), rd(4), sp(1, 8), rd(5), rd(5), rd(3), rd(5), rd(5)}},
+	}
+	for _, w := range ws {
+		cs, header := c11SkipBuild(c, true, w.desc)
+		var ans strings.Builder
+		var ops []string
+		for _, o := range w.ops {
+			cs.skipExec(o, &ans, &ops)
+		}
+		c.Note("skip.witness." + w.name)
+		c11SkipEmit(c, true, header, ops, &ans)
+	}
+}
+
+// one random history over a small graph with 1-2 skipping nodes; ops sp / rd (and now and then an
+// `si` re-wiring port 0 of a struct node upstream of Y to another parameter)
+func c11SkipRandom(c *Ctx) {
+	r := c.Rng
+	var desc []c11SkipNode
+	add := func(k byte, v int, sc ...int) int {
+		desc = append(desc, c11SkipNode{k, v, sc})
+		return len(desc) - 1
+	}
+	pk := func() byte {
+		if r.Intn(2) == 0 {
+			return 'Q'
+		}
+		return 'P'
+	}
+	salt := func() int { return 1 + r.Intn(100000) }
+	xval := func() int { // X: <= 0 and > 0 about equally often
+		if r.Intn(2) == 0 {
+			return 0
+		}
+		return 1 + r.Intn(50)
+	}
+	used := map[int]bool{}
+	pval := func() int {
+		v := 1 + r.Intn(99)
+		for used[v] {
+			v = 1 + r.Intn(99)
+		}
+		used[v] = true
+		return v
+	}
+	var xs, ps []int // X parameters (ports A of K nodes), other parameters
+	xs = append(xs, add(pk(), xval()))
+	ps = append(ps, add(pk(), pval()))
+	if r.Intn(2) == 0 {
+		ps = append(ps, add(pk(), pval()))
+	}
+	// Y: a struct node over 1-2 levels
+	var upstream []int // struct nodes at or above Y whose port 0 is a parameter
+	y := -1
+	if len(ps) > 1 && r.Intn(2) == 0 {
+		y = add('S', salt(), ps[0], ps[1])
+	} else {
+		y = add('S', salt(), ps[r.Intn(len(ps))])
+	}
+	upstream = append(upstream, y)
+	levels := 1
+	if r.Intn(2) == 0 {
+		levels = 2
+		if r.Intn(3) == 0 {
+			y = add('S', salt(), ps[r.Intn(len(ps))], y) // port 0 a parameter, port 1 the lower level
+			upstream = append(upstream, y)
+		} else {
+			y = add('S', salt(), y)
+		}
+	}
+	c.Note(fmt.Sprintf("skip.shape.Y-levels-%d", levels))
+	var ks []int
+	ks = append(ks, add('K', salt(), xs[0], y))
+	switch r.Intn(4) {
+	case 0: // a second K sharing Y, own X
+		xs = append(xs, add(pk(), xval()))
+		ks = append(ks, add('K', salt(), xs[1], y))
+		c.Note("skip.shape.two-K-sharing-Y")
+	case 1: // a second K sharing X and Y
+		ks = append(ks, add('K', salt(), xs[0], y))
+		c.Note("skip.shape.two-K-sharing-X-and-Y")
+	default:
+		c.Note("skip.shape.one-K")
+	}
+	var downs []int
+	if r.Intn(2) == 0 {
+		k := ks[r.Intn(len(ks))]
+		switch r.Intn(3) {
+		case 0:
+			downs = append(downs, add('S', salt(), k, y))
+		case 1:
+			if len(ks) > 1 {
+				downs = append(downs, add('S', salt(), ks[0], ks[1]))
+			} else {
+				downs = append(downs, add('S', salt(), k))
+			}
+		default:
+			downs = append(downs, add('S', salt(), k))
+		}
+		c.Note("skip.shape.node-downstream-of-K")
+	}
+	cs, header := c11SkipBuild(c, false, desc)
+	N := len(desc)
+	var ans strings.Builder
+	var ops []string
+	for M := 5 + r.Intn(21); len(ops) < M; {
+		pick := r.Intn(100)
+		switch {
+		case pick < 30: // set an X
+			p := xs[r.Intn(len(xs))]
+			v := 0
+			if r.Intn(2) == 0 {
+				v = cs.freshVal()
+				c.Note("skip.sp-X.positive")
+			} else {
+				c.Note("skip.sp-X.zero")
+			}
+			cs.skipExec(c11Op{kind: "sp", a: p, b: v}, &ans, &ops)
+		case pick < 42: // set another parameter (Y's cone)
+			cs.skipExec(c11Op{kind: "sp", a: ps[r.Intn(len(ps))], b: cs.freshVal()}, &ans, &ops)
+		case pick < 47 && len(ps) > 1: // re-wire port 0 of a struct node upstream of Y to another parameter
+			u := upstream[r.Intn(len(upstream))]
+			cur := cs.nd[u].sc[0]
+			p := ps[r.Intn(len(ps))]
+			if p == cur {
+				continue
+			}
+			c.Note("skip.si-upstream-of-Y")
+			cs.skipExec(c11Op{"si", u, 0, p}, &ans, &ops)
+		case pick < 80: // read a K node
+			cs.skipExec(c11Op{kind: "rd", a: ks[r.Intn(len(ks))]}, &ans, &ops)
+		case pick < 88 && len(downs) > 0:
+			cs.skipExec(c11Op{kind: "rd", a: downs[r.Intn(len(downs))]}, &ans, &ops)
+		case pick < 93:
+			cs.skipExec(c11Op{kind: "rd", a: y}, &ans, &ops)
+		default:
+			cs.skipExec(c11Op{kind: "rd", a: r.Intn(N)}, &ans, &ops)
+		}
+	}
+	c11SkipEmit(c, false, header, ops, &ans)
+}
+
+const c11SkipRandomN = 300
+
 func runC11(c *Ctx) {
+	// skipping-processor family first, independent of -n
+	c11SkipWitnesses(c)
+	for k := 0; k < c11SkipRandomN; k++ {
+		c11SkipRandom(c)
+	}
 	for k := 0; k < c.N; k++ {
 		c11History(c, k%2 == 0)
 	}
